@@ -117,6 +117,8 @@ pub fn scope(name: &str) -> Option<Scope> {
         "S2bf" => Scope { name: "S2bf", n: 2, r: 1, k: 1, fin: true, wrap: false, copyroot: false, barrier: true, ..BASE },
         "S2fm" => Scope { name: "S2fm", n: 2, r: 1, k: 1, fin: true, wrap: false, copyroot: false, maproot: true, ..BASE },
         // finalization after a caught panic in a trace call (of an object or of the root itself)
+        // finalization + callbacks that mutate and then unwind, incl. the finalize callback itself (PFin)
+        "S2pf" => Scope { name: "S2pf", n: 2, r: 2, k: 1, fin: true, fin_min: true, pcallbacks: true, wrap: false, copyroot: false, ..BASE },
         "S2fp" => Scope { name: "S2fp", n: 2, r: 2, k: 1, fin: true, fin_min: true, faults: true, wrap: false, copyroot: false, upgrade_ops: false, ..BASE },
         "S2f1" => Scope { name: "S2f1", fin: true, wrap: false, r: 1, k: 1, ..BASE },
         // chains of 3 / 4 objects, one root slot, one strong slot, no weak
